@@ -58,9 +58,9 @@ def replay_cases(chk, binary, cases, label, parts=None, timeout=1500):
         file_lines = None
         for line in out.splitlines():
             if line.startswith("SUMMARY"):
-                summ = dict(kv.split("=") for kv in line.split()[1:])
+                summ = vlib.kvs(line)
             elif line.startswith("STACK"):
-                kv = dict(x.split("=") for x in line.split()[1:])
+                kv = vlib.kvs(line)
                 if file_lines is None:
                     with open(f) as fh:
                         file_lines = fh.readlines()
